@@ -9,12 +9,19 @@ from . import c15_util as U
 
 PROP = "C15"
 PROPS_FILES = ["CogentModel/Props/C15.lean", "CogentModel/Props/C15NJ.lean", "CogentModel/Props/C15UPGMA.lean", "CogentModel/Props/C15Spec.lean",
-               "CogentModel/Props/C15Gen.lean"]
+               "CogentModel/Props/C15Gen.lean", "CogentModel/Props/C15TreeGen.lean"]
 LEAN_TARGETS = ["CogentModel.Props.C15", "CogentModel.Props.C15NJ", "CogentModel.Props.C15UPGMA", "CogentModel.Props.C15Spec",
-                "CogentModel.Props.C15Gen"]
+                "CogentModel.Props.C15Gen", "CogentModel.Props.C15TreeGen"]
 DRIVER = "drv_c15"
 GEN_PATH = LEAN / "CogentModel" / "Gen" / "C15Dist.lean"
+GEN_TREE_PATH = LEAN / "CogentModel" / "Gen" / "C15Tree.lean"
 TRUSTED = [
+    "translator/c15_tree2lean.py (ast of nj.PartialTree.join/get_dist_saved_join_score_matrix/`lengths` of asScoreTreeTuple and "
+    "UPGMA.find_smallest_index/condense_matrix/condense_node_order/loop body of UPGMA_cluster -> Gen/C15Tree.lean, every run) and the "
+    "numpy/list primitives of Model/TreeNumpy.lean (arrays as entry functions with explicit side n, exact rationals, argmin = first "
+    "minimum of the row-major ravel, naturals as indices, asserts are no-ops, PhyloNode.parent back-pointer not represented); "
+    "Props/C15TreeGen.lean proves every generated definition equal to / in simulation with Model/NJ.lean, Model/UPGMA.lean for all "
+    "arguments and the whole loops (gen_upgma_eq, gen_nj_eq)",
     "translator/c15_dist2lean.py (ast of fast_distance._hamming/_jc69_from_matrix/_tn93_from_matrix/_logdetcommon/_paralinear/_logdet/"
     "get_matrix_diff_coords and pairwise_distance_numba.fill_diversity_matrix -> Gen/C15Dist.lean, every run) and the numpy "
     "primitives of Model/DistanceNumpy.lean (4x4, exact rationals, numpy.log uninterpreted, log(a/sqrt b) = log a - log b / 2); "
@@ -38,8 +45,8 @@ CALCS = ["hamming", "pdist", "jc69", "tn93", "paralinear", "logdet", "logdet_not
 
 
 def generate(ctx):
-    """translator step: the estimator functions and the counting kernel -> Gen/C15Dist.lean (every run, from the
-    CURRENT source of the tree under test)"""
+    """translator step: the estimator functions and the counting kernel -> Gen/C15Dist.lean, the array / list code of
+    nj.py and UPGMA.py -> Gen/C15Tree.lean (every run, from the CURRENT source of the tree under test)"""
     import sys
 
     from .common import VERIF
@@ -48,10 +55,19 @@ def generate(ctx):
         sys.path.insert(0, str(VERIF))
     from translator import c15_dist2lean
 
+    from translator import c15_tree2lean
+
     text, problems = c15_dist2lean.translate(SRC)
     if text is not None and c15_dist2lean.write_if_changed(GEN_PATH, text):
         ctx.notes.append("Gen/C15Dist.lean was rewritten (estimator source differs from the last generated text, or first run)")
-    return [f"c15_dist2lean: {p}" for p in problems]
+    out = [f"c15_dist2lean: {p}" for p in problems]
+    text, problems, notes = c15_tree2lean.translate(SRC)
+    if text is not None and c15_tree2lean.write_if_changed(GEN_TREE_PATH, text):
+        ctx.notes.append("Gen/C15Tree.lean was rewritten (nj.py / UPGMA.py source differs from the last generated text, or first run)")
+    for x in notes:
+        if f"c15_tree2lean: {x}" not in ctx.notes:
+            ctx.notes.append(f"c15_tree2lean: {x}")
+    return out + [f"c15_tree2lean: {p}" for p in problems]
 
 
 REL = 1e-9
